@@ -1,12 +1,28 @@
+import os, sys
+sys.path.insert(0, os.path.dirname(os.path.dirname(os.path.abspath(__file__))))
+import checklib
+
+
+def regen(ctx):
+    f = "app/daemon/daemon.go:OrderedDaemon."
+    return checklib.regen_skeletons(ctx, [f + m for m in (
+        "BackgroundWorker", "runBackgroundWorker", "Start", "Run", "waitGroupsForAllShutdownOrders", "shutdown",
+        "stopWorkers", "getWorkersAndShutdownOrder", "cleanupWorker", "clear", "Shutdown", "ShutdownAndWait")],
+        extra_methods=["IsStopped", "IsRunning", "ctxCancel", "stoppedCtxCancel", "Slice", "backgroundWorker"])
+
+
 SPEC = {
     "lean_props": "Hive.Props.C20",
+    "regen": regen,
     "lean_namespace": "Hive.Daemon",
     "driver": "drv_c20",
     "harness": "c20",
     "race": False,
     "theorems": ["C20_order", "C20_equal_order_together", "C20_wait_returns_after_all",
                  "C20_no_add_after_shutdown", "C20_running_name_refused", "C20_run_wait_partial",
-                 "C20_run_wait_witness", "C20_statement_fails_witness", "C20_old_bw_window_witness"],
+                 "C20_run_wait_witness", "C20_statement_fails_witness", "C20_old_bw_window_witness",
+                 "C20_skeleton_BackgroundWorker", "C20_skeleton_runBackgroundWorker", "C20_skeleton_Start", "C20_skeleton_Run",
+                 "C20_skeleton_shutdown", "C20_skeleton_stopWorkers", "C20_skeleton_cleanupWorker"],
     "trusted_base": [
         "hand-written protocol model Hive/Model/Daemon.lean of app/daemon/daemon.go (critical sections of d.lock atomic; "
         "lock-free reads as separate steps), tied by (a) differential execution of sequential histories against the model "
